@@ -7,7 +7,8 @@ Local Open Scope Qc_scope.
 
 Record bcase := {
   b_t0 : Qc; b_dt : Qc; b_imex : bool; b_jacobi : bool;
-  b_mode : nat;                                 (* 0: one iteration from the pre_iteration state; 1 / 2: the fine_only / pfasst_burnin predictor from the pre_predict state *)
+  b_mode : nat;                                 (* 0: one iteration from the pre_iteration state; 1 / 2: the fine_only / pfasst_burnin predictor from the pre_predict
+                                                   state; 3: two iterations (state carried between iterations) *)
   b_levels : list mlevel;                       (* level 0 first; ml_pre / ml_post unused, ml_pre = nsweeps of the level *)
   b_xfers : list mxfer;                         (* transfer l <-> l+1 *)
   b_ends : list (bool * bool * list Qc);        (* per level: right_is_node, do_coll_update, weights (index 0 unused) *)
@@ -45,7 +46,8 @@ Section BRun.
     match b_mode C with
     | 0%nat => iteration_body P L nsw (b_jacobi C) ++ it_check_ops P
     | 1%nat => predict_ops P L PredFineOnly
-    | _ => predict_ops P L PredBurnIn
+    | 2%nat => predict_ops P L PredBurnIn
+    | _ => repeat_ops 2 (iteration_body P L nsw (b_jacobi C) ++ it_check_ops P)      (* two iterations *)
     end.
 
   Definition b_run : list Qc :=
